@@ -6,10 +6,10 @@ import (
 	"bytes"
 	"context"
 	"crypto/tls"
-	"net"
 	"fmt"
 	"io"
 	"math/rand"
+	"net"
 	"os"
 	"os/exec"
 	"strings"
